@@ -158,6 +158,11 @@ def make_frames(r, n: int, frame_id: str) -> List[FrameGroundTruth]:
     ego = [r.uniform(-1e4, 1e4) if r.random() < 0.5 else r.uniform(-50, 50), r.uniform(-1e4, 1e4) if r.random() < 0.5 else r.uniform(-50, 50), 0.0]
     ego_yaw = O.rand_yaw(r)
     tracks = {f"id{k}": dict(p=[r.uniform(-60, 60), r.uniform(-60, 60), r.uniform(-1, 1)], v=[r.uniform(-10, 10), r.uniform(-10, 10)], yaw=O.rand_yaw(r), w=r.uniform(-1.5, 1.5)) for k in range(n_ids)}
+    if frame_id == "map":
+        for tr in tracks.values():
+            # a thing turning on the spot (a turntable, a pedestrian looking around): its map position is bit-identical in
+            # every frame, only the orientation changes
+            tr["spot"] = (ego[0] + r.uniform(-60, 60), ego[1] + r.uniform(-60, 60), r.uniform(-1, 1)) if r.random() < 0.2 else None
     for k in range(n):
         t += r.choice([1, 50_000, 100_000, 100_000, 500_000, 2_000_000]) if k else 0
         sec = (t - 1_600_000_000_000_000) * 1e-6
@@ -169,7 +174,11 @@ def make_frames(r, n: int, frame_id: str) -> List[FrameGroundTruth]:
                 continue
             b = (tr["p"][0] + tr["v"][0] * sec, tr["p"][1] + tr["v"][1] * sec, tr["p"][2], G.wrap_pi(tr["yaw"] + tr["w"] * sec), 2.0, 4.0, 1.5)
             o = O.obj3d(*b, uuid=u, t=t, velocity=(tr["v"][0], tr["v"][1], 0.0), negate_q=r.random() < 0.4, npts=5)
-            if frame_id == "map":
+            if frame_id == "map" and tr.get("spot") is not None:
+                from perception_eval.common.schema import FrameID as _F
+
+                o = O.obj3d(*tr["spot"], G.wrap_pi(tr["yaw"] + tr["w"] * sec), 2.0, 4.0, 1.5, uuid=u, t=t, velocity=(0.0, 0.0, 0.0), negate_q=r.random() < 0.4, npts=5, frame=_F.MAP)
+            elif frame_id == "map":
                 o = O.to_map(o, ep, ey)
                 if r.random() < 0.4:
                     o.state.orientation = -o.state.orientation
